@@ -106,3 +106,5 @@ def all_ids():
 register(CheckDef("C15", "array", {"quick": {"runs": 60000, "wall": 75}, "thorough": {"runs": 1200000, "wall": 1100}}, "exploration"))
 register(CheckDef("C05", "array", {"quick": {"runs": 60000, "wall": 75}, "thorough": {"runs": 1200000, "wall": 1100}}, "exploration"))
 register(CheckDef("C16", "array", {"quick": {"runs": 60000, "wall": 75}, "thorough": {"runs": 1200000, "wall": 1100}}, "exploration"))
+register(CheckDef("C13", "dataset", {"quick": {"runs": 40000, "wall": 75}, "thorough": {"runs": 1500000, "wall": 1100}}, "fault_enumeration"))
+register(CheckDef("C14", "dataset", {"quick": {"runs": 40000, "wall": 75}, "thorough": {"runs": 1500000, "wall": 1100}}, "exploration"))
